@@ -494,7 +494,7 @@ class SharesManager(BaseManager):
             parent = parents[-1]
             parent.items |= shared_directory.items
 
-        self._cleanup_term_map()
+        self.rebuild_term_map()
 
         self._event_bus.emit_sync(SharedDirectoryChangeEvent(shared_directory))
 
